@@ -636,6 +636,9 @@ def dedicated(ctx, emit_funcs, summaries):
                 if p.returns and (p.retval is None or p.retval == N.NONE):
                     rets_ok = False
         ctx.ob(rule, fi, rets_ok, "FocusedSeq %s: every run of the generated helper returns the focused member's result (no path falls off the end)" % direction, key="FocusedSeq %s returns" % direction)
+        if direction == "parse":
+            from .C01 import focusedseq_focus
+            focusedseq_focus(ctx, rule)          # the interpreter side of the same selection
         if direction == "build":
             # which member gets the object: exactly the one whose name is parsebuildfrom (the interpreter's `obj if sc.name == parsebuildfrom else None`)
             focus_ok, decided = True, 0
